@@ -87,9 +87,40 @@ fn oracle_roundtrip(ctx: &Ctx, seed: u64, from: u64, to: u64, with_witnesses: bo
 // ---------------------------------------------------------------------------------------------------
 // c08.table
 
+/// deterministic byte-level witnesses of the read direction: (label, signature on failure, bytes, expected)
+fn parse_witnesses() -> Vec<(&'static str, &'static str, Vec<u8>, String)> {
+    let img = |w: u64, h: u64, b: u8| format!("II:{}", (w << 16) | (h << 8) | b as u64);
+    vec![
+        ("D21 sh yields Op::Shade", "table:sh", b"/Sh1 sh\n".to_vec(), format!("sh:{}", hex(b"Sh1"))),
+        ("Tr 6 and 7 are valid modes", "table:Tr", b"6 Tr 7 Tr\n".to_vec(), "Tr:6;Tr:7".to_string()),
+        ("v after h starts at the start of the subpath", "table:v", b"1 2 m 3 4 l h 5 5 6 7 v\n".to_vec(),
+            format!("m:{}:{};l:{}:{};h;c:{}:{}:{}:{}:{}:{}", bits(1.0), bits(2.0), bits(3.0), bits(4.0), bits(1.0), bits(2.0), bits(5.0), bits(5.0), bits(6.0), bits(7.0))),
+        ("v after re starts at the corner of the rectangle", "table:v", b"7 8 1 1 re 5 5 6 7 v\n".to_vec(),
+            format!("re:{}:{}:{}:{};c:{}:{}:{}:{}:{}:{}", bits(7.0), bits(8.0), bits(1.0), bits(1.0), bits(7.0), bits(8.0), bits(5.0), bits(5.0), bits(6.0), bits(7.0))),
+        ("inline image whose data ends with LF", "inline-image:data-with-LF", b"q BI /W 2 /H 1 /BPC 8 /CS /G ID x\n\nEI Q\n".to_vec(), format!("q;{};Q", img(2, 1, b'x'))),
+        ("inline image whose data contains LF E", "inline-image:data-with-LF", b"q BI /W 3 /H 1 /BPC 8 /CS /G ID x\nE\nEI Q\n".to_vec(), format!("q;{};Q", img(3, 1, b'x'))),
+        // open finding: the reader only accepts EI after a line feed
+        ("inline image with EI after a space", "inline-image:EI-not-after-LF", b"q BI /W 1 /H 1 /BPC 8 /CS /G ID A EI Q\n".to_vec(), format!("q;{};Q", img(1, 1, b'A'))),
+        ("inline image with EI after CR", "inline-image:EI-not-after-LF", b"q BI /W 1 /H 1 /BPC 8 /CS /G ID A\rEI Q\n".to_vec(), format!("q;{};Q", img(1, 1, b'A'))),
+    ]
+}
+
 fn oracle_table(ctx: &Ctx, seed: u64, per_kw: u64, from: u64, to: u64, only_seq: bool) -> Oracle {
     let mut or = Oracle::new("c08.table");
     if !only_seq {
+        for (i, (label, sig, bytes, expected)) in parse_witnesses().into_iter().enumerate() {
+            or.case(label, true, || json!({"witness": label}));
+            or.count("witness");
+            let want = format!("ok {}", expected);
+            for allow in [false, true] {
+                let got = answer(&ctx.parse(&bytes, allow));
+                if got != want {
+                    or.fail(sig, &format!("{} (allow_invalid_ops={}): stream {:?} must read as {} but reads as {}", label, allow, String::from_utf8_lossy(&bytes), want, got),
+                        json!({"stream": "c08.table", "witness": i, "seed": seed, "case": 0, "bytes_hex": hex(&bytes), "expected": want, "got": got}));
+                    break;
+                }
+            }
+        }
         for (idx, c) in kw_cases(seed, per_kw, false).into_iter().enumerate() {
             let e = match entry(&c.stmt.kw) {
                 Some(e) => e,
@@ -436,6 +467,7 @@ pub fn run(driver: &Driver, seed: u64, thorough: bool, replay: Option<&serde_jso
     rep.streams.push(stream_kw(driver, &ctx, seed, if t { 200 } else { 8 }, false));
     rep.streams.push(stream_kw(driver, &ctx, seed, if t { 100 } else { 5 }, true));
     rep.streams.push(stream_spec(driver, seed, if t { 100 } else { 6 }));
+    rep.streams.push(stream_inline(driver, &ctx, seed, if t { 200_000 } else { 3000 }));
     rep.oracles.push(oracle_roundtrip(&ctx, seed, 0, if t { 300_000 } else { 4000 }, true));
     rep.oracles.push(oracle_table(&ctx, seed, if t { 300 } else { 8 }, 0, if t { 100_000 } else { 2000 }, false));
     rep.oracles.push(oracle_leak(&ctx, seed, 0, if t { 100_000 } else { 2000 }));
